@@ -190,7 +190,13 @@ pub fn classify_cell(sys: &Sys) -> Result<(Band, Option<Vec<f64>>, f64), String>
         // convert the exact interior point to f64 and make sure it is still strictly inside
         let x: Vec<f64> = cert.x.iter().map(|q| q.to_f64()).collect();
         let xq = qv(&x);
-        if sys.slacks(&xq).iter().all(|s| s.is_pos()) {
+        // strictly inside every genuine half-space (tautological rows 0.x <= b, b >= 0, have no interior side)
+        let strictly = sys
+            .a
+            .iter()
+            .zip(sys.slacks(&xq).iter())
+            .all(|(row, sl)| if row.iter().all(|v| v.is_zero()) { !sl.is_neg() } else { sl.is_pos() });
+        if strictly {
             return Ok((band, Some(x), t));
         }
         return Ok((band, None, t));
